@@ -1,1 +1,191 @@
-def hello := "world"
+/-
+  JS.Basic — core data types of the model (no Mathlib).
+
+  JSON values as Python sees them after `json.loads`:
+  * strings are sequences of Unicode scalar values (`List Char`),
+  * numbers are either Python `int` (unbounded) or a finite binary64 float,
+    represented exactly as a signed dyadic `± m · 2^e`,
+  * objects are association lists in insertion order (Python dict order).
+-/
+namespace JS
+
+abbrev Str := List Char
+
+/-- A JSON number as Python holds it: an `int` or a finite `float`
+    (`flt neg m e` is `(-1)^neg · m · 2^e`; `-0.0` is `flt true 0 0`). -/
+inductive Num where
+  | int (v : Int)
+  | flt (neg : Bool) (m : Nat) (e : Int)
+deriving Repr, DecidableEq, Inhabited
+
+inductive Json where
+  | null
+  | bool (b : Bool)
+  | num (n : Num)
+  | str (s : Str)
+  | arr (xs : List Json)
+  | obj (kvs : List (Str × Json))
+deriving Repr, Inhabited
+
+namespace Json
+
+/-- `dict.get(k)`: first binding (the encoders never produce duplicate keys). -/
+def lookup (k : Str) : List (Str × Json) → Option Json
+  | [] => none
+  | (k', v) :: rest => if k' = k then some v else lookup k rest
+
+def get? (j : Json) (k : Str) : Option Json :=
+  match j with
+  | .obj kvs => lookup k kvs
+  | _ => none
+
+def hasKey (k : Str) (kvs : List (Str × Json)) : Bool := (lookup k kvs).isSome
+
+def isObj : Json → Bool | .obj _ => true | _ => false
+def isArr : Json → Bool | .arr _ => true | _ => false
+def isStr : Json → Bool | .str _ => true | _ => false
+def isNumJ : Json → Bool | .num _ => true | _ => false
+def isBoolJ : Json → Bool | .bool _ => true | _ => false
+
+/-- structural size, used for termination/fuel bounds -/
+def size : Json → Nat
+  | .null => 1
+  | .bool _ => 1
+  | .num _ => 1
+  | .str _ => 1
+  | .arr xs => 1 + sizeList xs
+  | .obj kvs => 1 + sizeKvs kvs
+where
+  sizeList : List Json → Nat
+    | [] => 0
+    | x :: xs => size x + sizeList xs
+  sizeKvs : List (Str × Json) → Nat
+    | [] => 0
+    | (_, v) :: kvs => 1 + size v + sizeKvs kvs
+
+end Json
+
+/-- Instance-path / schema-path element (`deque` entries: `str` or `int`). -/
+inductive PathElem where
+  | key (k : Str)
+  | idx (n : Nat)
+deriving Repr, DecidableEq, Inhabited
+
+/-- A message is a template name and its arguments; the harness renders it with
+    the real Python `%r`. -/
+structure Msg where
+  tmpl : String
+  args : List Json
+deriving Repr, Inhabited
+
+/-- The four fields `_Error._set` fills "only if unset". -/
+structure Meta where
+  kw     : Option Str      -- `validator`  (`None` for the `False` schema)
+  kwVal  : Json            -- `validator_value`
+  inst   : Json            -- `instance`
+  schema : Json            -- `schema`
+deriving Repr, Inhabited
+
+/-- `ValidationError`. `path`/`schemaPath` are the *relative* deques. -/
+inductive Err where
+  | mk (msg : Msg) (info : Option Meta) (path schemaPath : List PathElem)
+       (context : List Err) (cause : Option String)
+deriving Repr, Inhabited
+
+namespace Err
+def msg : Err → Msg | .mk m _ _ _ _ _ => m
+def info : Err → Option Meta | .mk _ i _ _ _ _ => i
+def path : Err → List PathElem | .mk _ _ p _ _ _ => p
+def schemaPath : Err → List PathElem | .mk _ _ _ sp _ _ => sp
+def context : Err → List Err | .mk _ _ _ _ c _ => c
+def cause : Err → Option String | .mk _ _ _ _ _ c => c
+
+/-- `ValidationError(message, context=…, cause=…)` as created inside a keyword function -/
+def fresh (t : String) (args : List Json) (ctx : List Err := []) (cause : Option String := none) : Err :=
+  .mk ⟨t, args⟩ none [] [] ctx cause
+
+def consPath (p : PathElem) : Err → Err
+  | .mk m i path sp c ca => .mk m i (p :: path) sp c ca
+def consSchemaPath (p : PathElem) : Err → Err
+  | .mk m i path sp c ca => .mk m i path (p :: sp) c ca
+/-- `_set(validator=…, validator_value=…, instance=…, schema=…)`: fill only if unset -/
+def setInfo (mt : Meta) : Err → Err
+  | .mk m i path sp c ca => .mk m (i.orElse fun _ => some mt) path sp c ca
+end Err
+
+/-- Exceptions that can leave a validation. `crash` stands for every undocumented
+    exception, identified by its Python class name. -/
+inductive Exc where
+  | refResolution
+  | unknownType (t : Json)
+  | crash (cls : String)
+  | custom (cls : String)        -- raised by a user-supplied format function (C12)
+deriving Repr, Inhabited
+
+/-- Questions the model asks about things outside the repository. -/
+inductive Query where
+  | reSearch (p s : Str)
+  | urljoin (a b : Str)
+  | urldefrag (u : Str)
+  | urinorm (u : Str)
+  | scheme (u : Str)
+  | sortPerm (xs : List Json)
+  | setOrder (xs : List Str)
+  | fetch (n : Nat) (u : Str)
+  | fmt (name : Str) (s : Json)
+deriving Repr, Inhabited
+
+inductive Stop where
+  | done
+  | budget                 -- the consumer stopped pulling (generator closed at a `yield`)
+  | raised (e : Exc)
+  | fuel                   -- model artefact: recursion bound hit (RecursionError)
+  | miss (q : Query)       -- driver artefact: oracle table lacks an answer
+deriving Repr, Inhabited
+
+def Stop.isDone : Stop → Bool | .done => true | _ => false
+
+/-- The resolver's mutable state (plus ghost fields). -/
+structure RState where
+  scopes : List Str                    -- `_scopes_stack`, top first
+  store : List (Str × Json)            -- `URIDict` (keys already normalised)
+  memo : List (Str × Json)             -- `_remote_cache`, most recently used first
+  memoCap : Option Nat                 -- `none` = unbounded, `some 0` = pass-through
+  cacheRemote : Bool
+  clock : Nat                          -- ghost: number of retrieval attempts so far
+  fetchLog : List (Str × Bool)         -- ghost: (uri, succeeded) in order
+deriving Repr, Inhabited
+
+structure Out where
+  errs : List Err
+  stop : Stop
+  st : RState
+deriving Inhabited
+
+/-- A generator: given how many errors the consumer will pull (`none` = all) and the
+    resolver state, the errors it yields, why it stopped, and the state it leaves. -/
+abbrev Gen := Option Nat → RState → Out
+/-- `iter_errors(instance, schema)` -/
+abbrev Rec := Json → Json → Gen
+
+/-- What calling a format function on an instance does: return a value of some
+    truthiness, or raise an exception (given by the class names of its MRO, own class first). -/
+inductive FmtRes where
+  | ret (truthy : Bool)
+  | raise (mro : List String)
+deriving Repr, Inhabited
+
+/-- result of an oracle query: `none` = the table has no answer (model stops with `miss`) -/
+structure Env where
+  reSearch  : Str → Str → Option (Option Bool)      -- inner `none`: `re.error`
+  urljoin   : Str → Str → Option Str
+  urldefrag : Str → Option (Str × Str)
+  urinorm   : Str → Option Str
+  scheme    : Str → Option Str
+  sortPerm  : List Json → Option (Option (List Nat))   -- inner `none`: `TypeError`
+  setOrder  : List Str → Option (List Str)
+  fetch     : Nat → Str → Option (Option Json)         -- inner `none`: the handler raised
+  fmt       : Str → Json → Option FmtRes
+deriving Inhabited
+
+end JS
